@@ -281,6 +281,7 @@ def run(ctx):
         'IEEE rounding between the real-number theorems and the float runs is not proved',
     ]
     ctx.gate()
+    ctx.translate(['GenLoops'])
     ok = ctx.build_props(extra=['C09/Float.vo', 'C01/Trace.vo'])
     bad = correspondence(ctx)
     c01.trace_validation(ctx)
